@@ -186,7 +186,9 @@ impl<'f> fixed_point::FixedPointAnalysis<'f, IntermediateOffset> for StackPointe
                     .ok_or("Unable to get function entry")??;
 
                 if location == function_entry {
-                    IntermediateOffset::Value(il::const_(0, 32))
+                    // The offset has the width of the stack pointer, so that it
+                    // can stand in for the stack pointer in its assignments.
+                    IntermediateOffset::Value(il::const_(0, self.stack_pointer.bits()))
                 } else {
                     IntermediateOffset::Top
                 }
